@@ -1,20 +1,20 @@
 // C14 harness: copy_and_convert_pixels on run-time typed views (see bin.hpp), list L6 (the library converts to
 // rgba from homogeneous pixels only, so the bit-aligned alternative cannot be part of a converting cross product):
 //   ccopy  <mode> T1 T2 w1 h1 w2 h2 s1 s2 dpos      default_color_converter overloads
-//   ccopyx <mode> T1 T2 w1 h1 w2 h2 s1 s2 dpos      overloads taking a colour converter (sum_cc)
+//   ccopyx <mode> T1 T2 w1 h1 w2 h2 s1 s2 dpos      overloads taking a colour converter: sum_cc(cc_offset(s1)), a STATEFUL converter
 #include "bin.hpp"
 using namespace c14;
-struct CCopyAlg { static constexpr bool needs_compat = false;
+struct CCopyAlg { static constexpr bool needs_equal_dims = true; static constexpr bool needs_compat = false;
     template <class S, class D> std::string operator()(S const& s, D const& d) const { gil::copy_and_convert_pixels(s, d); return ""; } };
-struct CCopyXAlg { static constexpr bool needs_compat = false;
-    template <class S, class D> std::string operator()(S const& s, D const& d) const { gil::copy_and_convert_pixels(s, d, sum_cc()); return ""; } };
+struct CCopyXAlg { static constexpr bool needs_equal_dims = true; static constexpr bool needs_compat = false; uint64_t off = 0;
+    template <class S, class D> std::string operator()(S const& s, D const& d) const { gil::copy_and_convert_pixels(s, d, sum_cc(off)); return ""; } };
 int main() {
     return hv::run([](std::string const& line) -> std::string {
         auto a = op_words(line);
 #if CC_GROUP == 1
         if (!a.empty() && a[0] == "ccopy") return run_bin_line<L6>(CCopyAlg(), a);
 #else
-        if (!a.empty() && a[0] == "ccopyx") return run_bin_line<L6>(CCopyXAlg(), a);
+        if (a.size() >= 11 && a[0] == "ccopyx") { CCopyXAlg alg; alg.off = cc_offset(hv::to_ull(a[8])); return run_bin_line<L6>(alg, a); }
 #endif
         return "bad-op";
     });
